@@ -742,7 +742,10 @@ func c19(o Opts) error {
 	if err := errorsSurface(res, work); err != nil {
 		return err
 	}
-	res.Rule = "histories as in C14/C15 (load, delete, delete-where, compact, vectors, vacuum, branch, merge, revert) run twice: direct (lakeapi local on a file lake) and through the HTTP service (service.Core behind httptest, lakeapi remote client); after every operation outcome class and the contents of every branch are compared and both are checked against the specification; load bodies in {zng, zson, zjson, json, csv, tsv, vng, auto-detect}; query responses in {zng, zson, zjson, json, ndjson, csv, tsv} with and without control frames; 15 error cases (unknown ids, syntax errors, inputs failing midway, malformed tails) and a query that fails after streaming started, in every response format"
+	if err := bigUploads(res, NewRng(o.Seed+991), work, o.Tier); err != nil {
+		return err
+	}
+	res.Rule = "uploads beyond the input path's buffers (> 10 MiB on the wire; gzip and plain; declared and auto-detected json/zson/zng) loaded directly from the bytes as a file and through the service; histories as in C14/C15 (load, delete, delete-where, compact, vectors, vacuum, branch, merge, revert) run twice: direct (lakeapi local on a file lake) and through the HTTP service (service.Core behind httptest, lakeapi remote client); after every operation outcome class and the contents of every branch are compared and both are checked against the specification; load bodies in {zng, zson, zjson, json, csv, tsv, vng, auto-detect}; query responses in {zng, zson, zjson, json, ndjson, csv, tsv} with and without control frames; 15 error cases (unknown ids, syntax errors, inputs failing midway, malformed tails) and a query that fails after streaming started, in every response format"
 	var sb strings.Builder
 	sb.WriteString("From ZV Require Import Base.Prelude Model.Service Model.ServiceCases Model.Channels.\n")
 	WriteCoqList(&sb, "stream_cases", "stream_case", streamCases)
